@@ -256,7 +256,10 @@ def m2d_case(draw, tier):
                 st.floats(0., 500., allow_nan=False),
                 st.sampled_from([0., 0., 1., 31.])),
                 min_size=nm, max_size=nm)),
-            "interp": draw(st.sampled_from(["flat", "cubic"]))}
+            "interp": draw(st.sampled_from(["flat", "cubic"])),
+            # lowest valid value: default 0, or a negative one (all inputs
+            # are non-negative, nothing becomes missing)
+            "minthr": draw(st.sampled_from([None, None, -5.0, -1e-9]))}
 
 
 def m2d_oracle(case):
@@ -264,7 +267,10 @@ def m2d_oracle(case):
     nm = len(case["vals"])
     index = pd.date_range(start, periods=nm, freq="MS")
     sem = pd.Series(np.array(case["vals"], dtype=np.float64), index=index)
-    sed = dutils.monthly2daily(sem.copy(), interpolation=case["interp"])
+    kw = {} if case.get("minthr") is None \
+        else {"minthreshold": case["minthr"]}
+    sed = dutils.monthly2daily(sem.copy(), interpolation=case["interp"],
+                               **kw)
     # expected calendar days
     y, m = case["year"], case["month"]
     days = []
